@@ -57,12 +57,15 @@ Example C18_purge_per_event :
   = [ONone; ONone; ONone; ONone; ONone; ONone; ONone; ONone; OIter [(1, 1); (3, 3)]].
 Proof. vm_compute. reflexivity. Qed.
 
-(** ... and the refusal of purged offsets does need the monotone clock (finding F31): event 2,
-    stamped in the past, is purged from between events 1 and 3; a seek to offset 2 is accepted
-    and the iteration silently resumes at event 3 *)
-Example C18_seek_into_a_hole_refuted :
-  brun bstate0 [BOpen 100; BSend 1; BBack 300; BSend 2; BAge 300; BSend 3; BOpen 100; BSeek 2; BIter]
-  = [ONone; ONone; ONone; ONone; ONone; ONone; ONone; OSeek SeekOk; OIter [(3, 3)]].
+(** ... and a purged offset is refused whatever the clock did (repaired finding F31): event 2,
+    stamped in the past, is purged from between events 1 and 3; a seek to offset 2 is refused *)
+Theorem C18_seek_refused_when_event_gone : forall b o s,
+  b_exists b = true -> b_seq b = Some s -> ~ In o (ids b) -> o <> s + 1 -> c_seek b o = SeekIndexError.
+Proof. exact seek_refused_when_event_gone. Qed.
+Print Assumptions C18_seek_refused_when_event_gone.
+Example C18_seek_into_a_hole_refused :
+  brun bstate0 [BOpen 100; BSend 1; BBack 300; BSend 2; BAge 300; BSend 3; BOpen 100; BSeek 2; BSeek 3; BIter]
+  = [ONone; ONone; ONone; ONone; ONone; ONone; ONone; OSeek SeekIndexError; OSeek SeekOk; OIter [(3, 3)]].
 Proof. vm_compute. reflexivity. Qed.
 
 Example C18_nonvacuous :
